@@ -103,6 +103,7 @@ def env() -> Dict[str, Any]:
         return _ENV
     from . import boot
     boot.setup()
+    boot.fake_translations()      # every _() string gets a visible translation (seeded change C02-2)
     from django.template import Library, engines
     from django.template.base import Parser
     from django_components import Component, registry, template_tag
